@@ -121,11 +121,11 @@ where
                                 // the sequence (the byte decoder owns the mode switch).
                                 co.yield_(None);
                             } else if "()".contains(&char) {
-                                let _code = co.yield_(None);
+                                let code = co.yield_(None).unwrap_or_default();
                                 if parser_state_cloned.lock().unwrap().use_utf8 {
                                     continue;
                                 } else {
-                                    // listener.lock().unwrap().define_charset(code, char);
+                                    listener.lock().unwrap().define_charset(&code, &char);
                                 }
                             } else {
                                 listener.lock().unwrap().escape_dispatch(&char);
@@ -248,11 +248,11 @@ where
                                 // the sequence (the byte decoder owns the mode switch).
                                 co.yield_(None);
                             } else if "()".contains(&char) {
-                                let _code = co.yield_(None);
+                                let code = co.yield_(None).unwrap_or_default();
                                 if parser_state_cloned.lock().unwrap().use_utf8 {
                                     continue;
                                 } else {
-                                    // listener.lock().unwrap().define_charset(code, char);
+                                    listener.lock().unwrap().define_charset(&code, &char);
                                 }
                             } else {
                                 listener.lock().unwrap().escape_dispatch(&char);
